@@ -26,9 +26,25 @@ import (
 	"mltwist/verifh/rvgen"
 )
 
+// Code and Data are the addresses of the program and of its data window. They are
+// variables so that a run can be placed in the upper half of the address space (SetHigh);
+// shards are single-threaded processes and every case sets them first.
+var (
+	Code uint64 = 0x10000
+	Data uint64 = 0x20000
+)
+
+// SetHigh places code and data at 0xffffffff8001_0000 / 0xffffffff8002_0000 (what a
+// sign-extending lui produces for 0x80020) or back at the usual low addresses.
+func SetHigh(on bool) {
+	if on {
+		Code, Data = 0xffffffff80010000, 0xffffffff80020000
+	} else {
+		Code, Data = 0x10000, 0x20000
+	}
+}
+
 const (
-	Code    = 0x10000
-	Data    = 0x20000
 	DataImg = 36 // bytes of the data window that belong to the image, as two blocks ...
 	DataOff = 12 // ... the first starting this far into the window; layout of the window:
 	// unmapped [0,12) | image [12,28) | unmapped [28,32) | image [32,52) | unmapped [52,64)
@@ -110,7 +126,7 @@ func sreg(r *rand.Rand) int {
 // Generate builds a program of about n instructions.
 func Generate(r *rand.Rand, n int) *Program {
 	p := &Program{}
-	p.add(enc("lui", 8, 0, 0, Data), "lui x8, data")
+	p.add(enc("lui", 8, 0, 0, int64(Data)), "lui x8, data")
 	slots := n
 	// emit pass: branch/jal targets are resolved against the final length, so first choose kinds
 	type pend struct {
@@ -270,7 +286,7 @@ func (p *Program) Bytes() []byte {
 func (p *Program) Listing() string {
 	var sb strings.Builder
 	for i, t := range p.Text {
-		fmt.Fprintf(&sb, "%#x: %08x %s\n", Code+4*i, p.Words[i], t)
+		fmt.Fprintf(&sb, "%#x: %08x %s\n", Code+uint64(4*i), p.Words[i], t)
 	}
 	return sb.String()
 }
@@ -415,6 +431,13 @@ func csrKeyNum(key string) (uint16, bool) {
 // of that property are reported.
 func RunCase(c *mon.Case, prop string) {
 	r := c.Rng
+	// every fifth case runs in the upper half of the address space
+	high := c.Idx%5 == 4 && c.Idx >= NTopPrograms
+	SetHigh(high)
+	defer SetHigh(false)
+	if high {
+		c.Count("runs_in_upper_half_of_address_space", 1)
+	}
 	// the first cases are the fixed top-of-memory programs (C03 only)
 	top := prop == "C03" && c.Idx < len(topPrograms)
 	var prog *Program
@@ -442,7 +465,7 @@ func RunCase(c *mon.Case, prop string) {
 	}
 
 	// ---- assemble like cmd/mltwist
-	codeMem, err := elf.VerifNewMemory([]model.Addr{Code}, [][]byte{code})
+	codeMem, err := elf.VerifNewMemory([]model.Addr{model.Addr(Code)}, [][]byte{code})
 	if err != nil {
 		c.Fail(prop+".harness", nil, "code memory: %v", err)
 		return
@@ -452,7 +475,7 @@ func RunCase(c *mon.Case, prop string) {
 	pn, val, stack := mon.Try(func() {
 		ins, err = parser.Parse(codeMem, rvParser)
 		if err == nil {
-			dcode, err = deps.NewCode(Code, ins)
+			dcode, err = deps.NewCode(model.Addr(Code), ins)
 		}
 	})
 	if pn {
@@ -463,7 +486,7 @@ func RunCase(c *mon.Case, prop string) {
 		fail("C03.build.error", nil, "valid program rejected: %v", err)
 		return
 	}
-	imgMem, err := elf.VerifNewMemory([]model.Addr{Code, Data + DataOff, Data + DataOff + DataCut + DataHole}, [][]byte{code, dataImg[:DataCut], dataImg[DataCut:]})
+	imgMem, err := elf.VerifNewMemory([]model.Addr{model.Addr(Code), model.Addr(Data + DataOff), model.Addr(Data + DataOff + DataCut + DataHole)}, [][]byte{code, dataImg[:DataCut], dataImg[DataCut:]})
 	if err != nil {
 		c.Fail(prop+".harness", nil, "image memory: %v", err)
 		return
@@ -527,7 +550,7 @@ func RunCase(c *mon.Case, prop string) {
 		}
 		for k := 0; k < r.Intn(4); k++ {
 			w := []int{1, 2, 4, 8}[r.Intn(4)]
-			a := uint64(Data + r.Intn(DataWin-w+1))
+			a := Data + uint64(r.Intn(DataWin-w+1))
 			bs := make([]byte, w)
 			r.Read(bs)
 			st.Mems.Store(riscv.MemoryKey, model.Addr(a), expr.NewConst(bs, expr.Width(w)), expr.Width(w))
@@ -538,7 +561,7 @@ func RunCase(c *mon.Case, prop string) {
 		}
 		c.Count("prepopulated_runs", 1)
 	}
-	emu := emulator.New(dcode, Code, prov, st)
+	emu := emulator.New(dcode, model.Addr(Code), prov, st)
 
 	partialOverlapLoad, takenBranch := false, false
 	lastStore := map[uint64]int{} // addr -> store id
